@@ -111,6 +111,7 @@ class World:
                        keep_log=keep_log)
         self.bus = SimBus(self.sim, scn.get('latency'), scn.get('faults'), seed=scn['seed'])
         self.deliveries = []
+        self.delivery_hooks = []     # callables(stack, listener, pgn, sa, data) run inside the listener callback (application reacting)
         self.stacks = {}
         if tracer_factory is not None:
             self.tracers = tracer_factory(self.sim)
@@ -123,6 +124,8 @@ class World:
             self.deliveries.append({'t': self.sim.now, 'stack': stack, 'l': lid, 'prio': priority, 'pgn': pgn,
                                     'sa': sa, 'data': d})
             self.sim.log('deliver', stack, lid, pgn, sa, d)
+            for h in self.delivery_hooks:
+                h(stack, lid, pgn, sa, d)
         return cb
 
     def spin_or_dead(self):
